@@ -235,6 +235,7 @@ JudgeC12(e) ==
         ELSE IF e.compiles THEN OKv
         ELSE IF sch.ctx = "names" /\ AsIsNameClash(Devs, sch.nm, c.opts)
              THEN Known("uncompilable:identifier_clash", "generated code does not compile: " \o sch.tag)
+        ELSE IF sch.ctx = "impuse" THEN Bad("a schema that uses an " \o sch.tag \o " generates Go code that does not compile under options " \o ToString(c.opts))
         ELSE IF sch.ctx = "names" THEN Bad("a valid schema generates Go code that does not compile: " \o sch.tag)
         ELSE IF AsIsUncompilableS(Devs, sch.defs, sch.ft, sch.ctx) # ""
              THEN Known(AsIsUncompilableS(Devs, sch.defs, sch.ft, sch.ctx), "generated code does not compile")
